@@ -191,6 +191,19 @@ def campaign(c):
             for name, off, w in LAYOUT[f['path']]:
                 if int.from_bytes(b[off:off + w], 'big') != num(want[name]):
                     c.violation('bind:designation:' + f['path'], 'the value designated for `%s` (%s) is not in that field of the result %s' % (name, want[name], b.hex()), dict(func=f['path'], req=req))
+        if b is not None and f['path'] == 'dhcp::hdr':
+            # every parameter of the DHCP header builder has its own field (RFC 2131 offsets, Spec.dhcpField): the value designated
+            # for a parameter is in ITS field even when a neighbouring parameter (address and address length, ...) is given too
+            from ..calls import kv
+            fld = kv(c.model.ask('oracle frame dhcp ' + core.sh_hex(b)))
+            W = dict(op=1, htype=1, hlen=1, hops=1, xid=4, secs=2, flags=2, ciaddr=4, yiaddr=4, siaddr=4, giaddr=4, chaddr=16, sname=64, file=128, magic=4)
+            for pname, v in vals:
+                fn_ = {'opcode': 'op'}.get(pname, pname)
+                if fn_ not in W: continue
+                raw = core.unhex(v.split(':')[1]) if v.startswith('str:') else int(v.split(':')[1]).to_bytes(W[fn_], 'big')
+                exp = (raw[:W[fn_]] + b'\0' * W[fn_])[:W[fn_]]
+                if fld.get(fn_) != exp.hex():
+                    c.violation('bind:designation:dhcp::hdr', 'the value designated for `%s` (%s) is not what the field holds (%s)' % (pname, v, fld.get(fn_)), dict(func=f['path'], req=req))
         if b is not None and f['path'] in ('dns::question', 'dns::answer'):
             n = len(core.unhex(want['qname' if 'question' in f['path'] else 'aname'].split(':')[1]))    # the name argument is already in wire form (dns::name)
             tn, cn = ('qtype', 'qclass') if 'question' in f['path'] else ('atype', 'aclass')
